@@ -125,7 +125,7 @@ CLAIMED = {
     "C42": dict(
         technique="field-store whitelist inside vacuum (+closures), data-flow identity of read/written payload by frame id, must-pass-through + read-before-rewrite and offset-before-advance ordering",
         text="Partial: inside vacuum only Frame.payload_offset/payload_length are stored; the bytes written for a frame are those read for the frame with the same id, "
-             "only on the Active edge, at the running cursor; commit succeeds before any payload moves and Ok is reached only through rebuild_indexes -> sync_all. The new offset is the cursor before it is advanced past the payload, and every payload is read before the first one is rewritten in place.",
+             "only on the Active edge, at the running cursor; commit succeeds before any payload moves and Ok is reached only through rebuild_indexes -> sync_all. The new offset is the cursor before it is advanced past the payload, and every payload is read before the first one is rewritten in place. rebuild_indexes (to which vacuum hands the file) never truncates below header.footer_offset.",
         note="Not decided: byte equality of content, equality of search/timeline results, crash-atomicity of the in-place rewrite.",
         design_ref="DESIGN.md §4 C42"),
     "C13": dict(
@@ -163,9 +163,9 @@ CLAIMED = {
         note="Not decided: detection of every single-byte corruption. Fix commit 34d4061 added the payload comparison; known finding (open): blob_reader streams Plain payloads unchecked. Known finding (open): the WAL record digest covers the payload only, so a flipped sequence byte of a checkpointed record makes open replay it.",
         design_ref="DESIGN.md §4 C20"),
     "C30": dict(
-        technique="writer/reader layout agreement recovered from MIR with a constant evaluator (field -> offset/width/endianness maps; ordered item lists for streamed layouts) + edge-cut must-pass-through in Toc::decode + writer/reader order-contract agreement for the time index",
+        technique="writer/reader layout agreement recovered from MIR with a constant evaluator (field -> offset/width/endianness maps; ordered item lists for streamed layouts) + edge-cut must-pass-through in Toc::decode + writer/reader order-contract agreement for the time index + exact-equality rule for length checks in the decoders",
         text="Partial (layout agreement): header and footer field maps recovered from encode equal those recovered from decode, cover every field, are disjoint and inside the fixed "
-             "size, with the same validated fields; the time-index item list written equals the list read and hashed; Toc::decode returns Ok only on the bytes_read == len edge in all three format arms. The time-index writer sorts by (timestamp, frame_id) and the reader validates exactly that order.",
+             "size, with the same validated fields; the time-index item list written equals the list read and hashed; Toc::decode returns Ok only on the bytes_read == len edge in all three format arms. The time-index writer sorts by (timestamp, frame_id) and the reader validates exactly that order. No decoder relates a count and a byte length through integer division.",
         note="Not decided: round-trip equality for arbitrary values; bincode/serde themselves (external).",
         design_ref="DESIGN.md §4 C30"),
     "C17": dict(
@@ -209,9 +209,9 @@ CLAIMED = {
         note="Not decided: the loop-invariant argument that the first accepted candidate ends at the highest offset, beyond these shape facts.",
         design_ref="DESIGN.md §4 C31"),
     "C39": dict(
-        technique="expression-family agreement of Bloom bit positions (shift constants), shared tokenizer/hash reachability, writer/reader field-coverage analysis of the sketch track + loop-exit analysis of the filter insertion loop",
+        technique="expression-family agreement of Bloom bit positions (shift constants), shared tokenizer/hash reachability, writer/reader field-coverage analysis of the sketch track + loop-exit analysis of the filter insertion loop + lossless-pipeline adaptor scan",
         text="Partial: probe bit positions are a subset of written positions with the same addressing; index and query sides share tokenize_for_sketch and hash_token; every "
-             "SketchEntry field the track reader reconstructs must come from written bytes (a field synthesised from the loop index requires a dense writer); header widths agree. The insertion loop of build_term_filter exits only on iterator exhaustion and every iteration sets its bit positions.",
+             "SketchEntry field the track reader reconstructs must come from written bytes (a field synthesised from the loop index requires a dense writer); header widths agree. The insertion loop of build_term_filter exits only on iterator exhaustion and every iteration sets its bit positions. The token pipeline from tokenize_for_sketch to build_term_filter contains no token-dropping adaptor.",
         note="Not decided: filter false-positive behaviour, simhash values. Known finding (open): frame_id is not serialised and is rebuilt from the entry position.",
         design_ref="DESIGN.md §4 C39"),
     "C02": dict(
@@ -240,10 +240,10 @@ CLAIMED = {
              "in bytes. The type rule found a genuine defect (memories-track maps serialised in HashMap order), repaired by fix commit 00289e5.",
         design_ref="DESIGN.md §4 C23"),
     "C28": dict(
-        technique="edge-cut reachability on the tantivy_dirty test in rebuild_indexes, data-dependence agreement between the bytes persisted and the bytes decoded into the installed in-memory index, sibling agreement of commit-side and reopen-side decoders + sibling agreement of range-end comparisons",
+        technique="edge-cut reachability on the tantivy_dirty test in rebuild_indexes, data-dependence agreement between the bytes persisted and the bytes decoded into the installed in-memory index, sibling agreement of commit-side and reopen-side decoders + sibling agreement of range-end comparisons + loader-before-replay ordering + truncation-length flow",
         text="Partial: the incremental Tantivy arm is reachable only when no provisional instant-index entries exist; the in-memory lex/vec indexes a commit installs are decoded from the "
              "very artifact bytes it persists and whose length/checksum it records; the reopen path decodes with the same decoder at the manifest's offset/length; put_internal's instant "
-             "index marks tantivy_dirty. Every comparison of a range end (offset + length) with footer_offset / the file length uses end > limit to reject (sibling agreement, closures resolved through their call sites).",
+             "index marks tantivy_dirty. Every comparison of a range end (offset + length) with footer_offset / the file length uses end > limit to reject (sibling agreement, closures resolved through their call sites). open_locked loads every index before the WAL replay; rebuild_indexes never truncates below header.footer_offset.",
         note="Not decided: equality of query answers before and after reopen (values); Tantivy's own persistence.",
         design_ref="DESIGN.md §4 C28"),
     "C29": dict(
